@@ -107,6 +107,11 @@ def step (ws : List String) : String :=
     match tS.toNat?, _calls.toNat?, _loaders.toNat?, _events.toNat? with
     | some t, some _, some _, some _ => if t == 0 || t > 64 then "bad-op" else conc t outcome
     | _, _, _, _ => "bad-op"
+  | ["idle.rootgone", kS] =>
+    -- hot-reloading cannot start (the source's directory is gone): no thread exists, nothing is left behind
+    match kS.toNat? with
+    | some k => if k == 0 || k > 16 then "bad-op" else "released"
+    | none => "bad-op"
   | ["idle.run", kind, when_, kS, mS, eS] =>
     match kS.toNat?, mS.toNat?, eS.toNat? with
     | some k, some m, some ev =>
